@@ -508,7 +508,71 @@ def r11(ctx):
     ctx.floor(R, 2)
 
 
+def r12(ctx):
+    R = "C07-R12"
+    ctx.rule(R, "a namespace record never overtakes an earlier record on the same name: sync_dir(d) selects the records of d's entries, but two "
+                "kinds of record it selects also name an entry of a directory that is *not* being synced - a Rename with only one side in d (it "
+                "is flushed whole) and d's own creation. If the selection is a per-record predicate (it sees one record and `d`), the earlier "
+                "pending records on that foreign name - the creation of the rename's source, a removal of its target, the removal of the name "
+                "d was created under - stay behind and are replayed later against the wrong entry. The selection must therefore be closed over "
+                "names (it consults the log, not only the record), or select no foreign names")
+    sd = ctx.body(R, FS + "sync_dir")
+    if not sd:
+        return
+    OP = "turmoil_fs::PendingOp"
+    sel = None
+    for bb, t in sd.calls(re.compile(r"Iterator::(partition|filter|partition_in_place)$|Vec::(retain|retain_mut|extract_if|drain_filter)$")):
+        src = Slicer(ctx.w).atoms(sd, t["args"][0])
+        if "field:" + FS + "pending" not in src:
+            continue
+        for cid in closure_args(sd, t):
+            cb = ctx.w.bodies.get(cid)
+            if cb and any(adt == OP for sbb, m, els, adt, pl in variant_edges(cb, lambda p: True)):
+                sel = (bb, t, cb)
+    if not sel:
+        ctx.inst(R, "sync_dir:selection-found", False, sd.span, "sync_dir no longer selects records with a predicate closure over Fs::pending: re-derive")
+        ctx.floor(R, 1)
+        return
+    bb, t, cb = sel
+    # what the predicate can see: its captures
+    caps = set()
+    for b2, i2, s2 in sd.all_stmts():
+        r = s2["r"]
+        if i2 != "term" and r["k"] == "agg" and r.get("def") == cb.id:
+            for o in r["ops"]:
+                caps |= Slicer(ctx.w).atoms(sd, o)
+    per_record = "field:" + FS + "pending" not in caps and not any(a.startswith("call:") and ("collect" in a or "HashSet" in a or "IndexSet" in a) for a in caps)
+    # foreign names: the Rename arm tests the parent of both ends; an arm compares a record's path with d itself
+    foreign = []
+    for sbb, m, els, adt, pl in variant_edges(cb, lambda p: True):
+        if adt != OP:
+            continue
+        if "Rename" in m:
+            r_ = cb.reachable(m["Rename"][1])
+            ends = set()
+            for x, t2 in cb.calls(re.compile(r"Path::parent$")):
+                if x in r_:
+                    at = Slicer(ctx.w).atoms(cb, t2["args"][0])
+                    ends |= {f.rsplit("::", 1)[1] for f in (a[6:] for a in at if a.startswith("field:")) if f.startswith(OP + "::Rename::") or f.endswith("::from") or f.endswith("::to")}
+            if {"from", "to"} <= ends:
+                foreign.append("a Rename with one end in the directory")
+    for x, t2 in cb.calls(re.compile(r"PartialEq.*::eq$")):
+        a0, a1 = Slicer(ctx.w).atoms(cb, t2["args"][0]), Slicer(ctx.w).atoms(cb, t2["args"][1])
+        both = a0 | a1
+        if any(a.startswith("field:" + OP) or (a.startswith("field:") and a.endswith("::path")) for a in both) and not any(a.endswith("Path::parent") for a in both if a.startswith("call:")) \
+                and any("{env}" in a or a.startswith("arg:1:") for a in both):
+            foreign.append("the directory's own creation / removal")
+            break
+    ok = not (per_record and foreign)
+    ctx.inst(R, "sync_dir:foreign-names-closed", ok, t["s"], "the selection is closed over names (or selects no foreign names)" if ok else
+             f"sync_dir selects records one by one (the predicate sees the record and the directory only) and selects {sorted(set(foreign))}: such a record names an entry of "
+             "a directory that is not being synced and is flushed past the earlier pending records on that name - create /d1/a; rename /d1/a -> /d2/b; sync_dir(/d2); "
+             "crash leaves /d2/b absent, and remove /d2/b; rename /d1/a -> /d2/b; sync_dir(/d1); sync_dir(/d2); crash loses a synced file")
+    ctx.floor(R, 1)
+
+
 def run(ctx):
+    r12(ctx)
     r11(ctx)
     r10(ctx)
     r9(ctx)
